@@ -631,9 +631,19 @@ class ExperimentPackage(StorageStructurePathResolver):
                                          "the workflow definition is stored in it, but it resolves to %s" % (
                                              manifest['conf'], real_conf_path))
                 if file_format == "dsl":
-                    shutil.copyfile(path, os.path.join(conf_dir, "dsl.yaml"))
+                    definition_path = os.path.join(conf_dir, "dsl.yaml")
                 else:
-                    shutil.copyfile(path, os.path.join(conf_dir, "flowir_package.yaml"))
+                    definition_path = os.path.join(conf_dir, "flowir_package.yaml")
+
+                # VV: A manifest entry below conf may have placed a symbolic link where the workflow definition goes,
+                #     copying the definition would then overwrite the file the link points to
+                real_instance_path = os.path.realpath(targetPath)
+                real_definition_path = os.path.realpath(definition_path)
+                if os.path.commonpath([real_instance_path, real_definition_path]) != real_instance_path:
+                    raise ValueError("The workflow definition %s must be stored in the instance directory but "
+                                     "the manifest makes it resolve to %s" % (definition_path, real_definition_path))
+
+                shutil.copyfile(path, definition_path)
             except OSError as e:
                 raise_with_traceback(experiment.model.errors.PackageCreateError(e, targetPath, path))
 
